@@ -192,6 +192,9 @@ def gen_sched(rng, nthreads, est_steps):
     return ("tids", tids)
 
 
+BIG_FILLS = [4090, 4093, 4094, 4095, 4096, 4100, 8189, 8190]     # other live wakers created first
+
+
 def gen_waker_case(rng, prop, big=False):
     """plain wakers: wake/drop from workers against poll_wake; placement by `fill`."""
     nw = rng.randint(1, 6)
@@ -292,9 +295,13 @@ def gen_chan_case(rng):
     for c in range(nc):
         if rng.random() < 0.3 and ("cdrop %d" % c) not in main:
             main += ["cdrop %d" % c, "pollif"]
+    kind = "chan"
+    if rng.random() < 0.08:
+        main.insert(0, "fill %d" % rng.choice(BIG_FILLS))      # the channel's Waker beyond the first bitmap
+        kind = "chan-big"
     scripts[0] = main
     est = 8 * sum(len(v) for v in scripts.values())
-    return Case(scripts, gen_sched(rng, ns, est), rng.randint(1, 2 ** 31), "chan")
+    return Case(scripts, gen_sched(rng, ns, est), rng.randint(1, 2 ** 31), kind)
 
 
 def gen_pipe_case(rng):
@@ -337,9 +344,14 @@ def gen_pipe_case(rng):
         if rng.random() < 0.5:
             main.append("psend 0 %d" % msg)      # after drop: bad command (handle gone)
     main += drops + ["join", rng.choice(["poll", "pollif", "pollif"])]
+    kind = "pipe"
+    if rng.random() < 0.10:
+        # the PipedThread's own Waker around / beyond the end of the first 64x64 bitmap (slab keys 4095 | 4097 ...)
+        main.insert(0, "fill %d" % rng.choice(BIG_FILLS))
+        kind = "pipe-big"
     scripts[0] = main
     est = 8 * sum(len(v) for v in scripts.values())
-    return Case(scripts, gen_sched(rng, np_, est), rng.randint(1, 2 ** 31), "pipe")
+    return Case(scripts, gen_sched(rng, np_, est), rng.randint(1, 2 ** 31), kind)
 
 
 def gen_pipe_open_case(rng):
@@ -656,6 +668,12 @@ def monitor_fails(res, prop):
     return res.mon is not None and res.mon.get(prop) is False
 
 
+def crate_panic(res):
+    """the CRATE (not the harness, not a scripted worker panic) panicked on a valid scenario: a failing input"""
+    src = os.path.join(os.path.realpath(vlib.REPO), "src") + os.sep
+    return any("panicked at" in ln and (src in ln or (vlib.REPO.rstrip("/") + "/src/") in ln) for ln in res.err.split("\n"))
+
+
 def real_broken(res):
     """the real run itself went wrong (harness crash / panic outside a piped worker / step limit)"""
     return res.rc != 0 or res.err.strip() != "" or res.end.get("aborted") == "steplimit" or not res.end
@@ -791,7 +809,7 @@ def run(prop, tier, seed):
         results += rs
     done = 0
     escalated = False
-    while done < n and not any(monitor_fails(r, prop) for r in results):
+    while done < n and not any(monitor_fails(r, prop) or crate_panic(r) for r in results):
         k = min(500, n - done)
         cases = [gen_case(rng, prop) for _ in range(k)]
         rs = run_cases(conc, driver, cases, "g%d" % done, model_ok)
@@ -804,14 +822,27 @@ def run(prop, tier, seed):
         if not escalated and any(r.diff for r in rs) and n < 6000:
             n = 6000          # correspondence broken: escalate the search
             escalated = True
-        if any(monitor_fails(r, prop) for r in rs):
+        if any(monitor_fails(r, prop) or crate_panic(r) for r in rs):
             break
         if time.time() - t_start > budget:
             break
-    broken = [r for r in results if real_broken(r)]
+    panics = [r for r in results if crate_panic(r)]
+    broken = [r for r in results if real_broken(r) and not crate_panic(r)]
     if broken:
         r = broken[0]
         raise RuntimeError("real run failed (%s): rc=%s stderr=%s" % (r.name, r.rc, r.err[-500:]))
+    if panics:
+        # a panic inside src/ on a valid scenario: the property fails on this input whatever the monitors saw before it
+        r = panics[0]
+        path = write_replay_file(prop, "panic-%s.case" % r.name.replace("/", "_"),
+                                 ["VIOLATION of %s: the crate at %s PANICS on a valid scenario (%d of %d cases)" % (prop, vlib.REPO, len(panics), len(results)),
+                                  "stderr: " + " | ".join(r.err.strip().split("\n")[:4])] + problems, r.case, r)
+        vlib.violation(prop, path)
+        ev.violations = len(panics)
+        ev.cov = {"obligations": max(1, audit["obligations"]), "discharged": audit["obligations"] if audit["ok"] else 0,
+                  "checker_cmd": "make -C coq Props/%s.vo" % prop, "evaluations": len(results), "crate_panics": len(panics), "proof_problems": problems}
+        ev.write()
+        return 1
     fails = [r for r in results if monitor_fails(r, prop)]
     diffs = [r for r in results if r.diff]
     if diffs:
